@@ -128,7 +128,7 @@ func (c *codec) encodeBodyUncompressed(header *Header, body *Body, dest io.Write
 			return fmt.Errorf("cannot encode body tracing id: %w", err)
 		}
 	}
-	if header.Flags.Contains(primitive.HeaderFlagWarning) {
+	if header.Flags.Contains(primitive.HeaderFlagWarning) && body.Message.IsResponse() {
 		if header.Version < primitive.ProtocolVersion4 && body.Warnings != nil {
 			return fmt.Errorf("warnings are not supported in protocol version %v", header.Version)
 		} else if err = primitive.WriteStringList(body.Warnings, dest); err != nil {
@@ -162,7 +162,7 @@ func (c *codec) uncompressedBodyLength(header *Header, body *Body) (length int, 
 	if header.Flags.Contains(primitive.HeaderFlagCustomPayload) {
 		length += primitive.LengthOfBytesMap(body.CustomPayload)
 	}
-	if header.Flags.Contains(primitive.HeaderFlagWarning) {
+	if header.Flags.Contains(primitive.HeaderFlagWarning) && body.Message.IsResponse() {
 		length += primitive.LengthOfStringList(body.Warnings)
 	}
 	return length, nil
